@@ -320,8 +320,11 @@ fn run_nav(h: &UnitHeader<R>, abbrevs: &gimli::Abbreviations, nav: &Value) -> Va
                     Err(e) => return json!({"open_err":err_name(&e)}),
                 },
             };
-            let out: Vec<Value> = script.iter().map(|op| cursor_op(&mut c, op)).collect();
-            json!({ "steps": out })
+            let mut last = Value::Null;
+            for op in &script {
+                last = cursor_op(&mut c, op);
+            }
+            json!({ "n": script.len(), "last": last })
         }
         "tree" => {
             let mut t = match h.entries_tree(abbrevs, so) {
@@ -330,7 +333,7 @@ fn run_nav(h: &UnitHeader<R>, abbrevs: &gimli::Abbreviations, nav: &Value) -> Va
             };
             let mut run = TreeRun { script: &script, pos: 0, out: Vec::new() };
             run.run(&mut t);
-            json!({ "steps": run.out })
+            json!({ "n": run.out.len(), "last": run.out.last().cloned().unwrap_or(Value::Null) })
         }
         "raw" => {
             let mut r = match h.entries_raw(abbrevs, so) {
@@ -338,8 +341,11 @@ fn run_nav(h: &UnitHeader<R>, abbrevs: &gimli::Abbreviations, nav: &Value) -> Va
                 Err(e) => return json!({"open_err":err_name(&e)}),
             };
             let mut ent = DebuggingInformationEntry::null();
-            let out: Vec<Value> = script.iter().map(|_| raw_read(&mut r, &mut ent)).collect();
-            json!({ "steps": out })
+            let mut last = Value::Null;
+            for _ in &script {
+                last = raw_read(&mut r, &mut ent);
+            }
+            json!({ "n": script.len(), "last": last })
         }
         _ => json!({"outcome":"bad-api"}),
     }
